@@ -14,9 +14,11 @@
     (C01's theorems discharge it for every date).
     [claim r out]: r = ROk s -> out = Ok with text s; r = RFail -> out = Err(fmt::Error);
     r = RSkip (outside the property's domain) -> no claim. *)
-From Coq Require Import ZArith List Bool.
+From Coq Require Import ZArith List Bool String.
 From V Require Import Base.Int Base.IO Spec.StrftimeDoc Model.Items Gen.Strftime Model.Strftime Model.Format
-  Proofs.C12 Proofs.C12Str Proofs.C12Tok Proofs.C12Fam.
+  Proofs.C12 Proofs.C12Str Proofs.C12Tok Proofs.C12Fam Proofs.C12View.
+From V Require Import Spec.Gregorian Model.C12 Judge.C12 Proofs.C08Sweeps.
+From V Require Model.DateTime Model.Time.
 Import ListNotations.
 Open Scope Z_scope.
 
@@ -125,16 +127,63 @@ Theorem C12_tokenization_documented_family : forall fmt,
 Proof. exact tokenization_documented_family. Qed.
 Print Assumptions C12_tokenization_documented_family.
 
-(** C12 on the documented family: every value x every format string built from the documented
-    specifiers and modifiers renders as documented, or fails exactly where the documentation says.
-    Partial only in its hypothesis [args_view]: that the packed date handed to the formatter reads
-    as the calendar date of its day number is C01's theorem (and, for DateTime values, that
-    [overflowing_naive_local] is the wall-clock reading is C04's); the gap between the op-level
-    value decoding and [args_view] is covered by the correspondence run, not by this theorem. *)
-Theorem C12_format_spec_family_partial : forall a sv fmt, args_view a sv -> documented_family fmt ->
+(** C12 for the formatter on the documented family: given arguments that denote the value
+    ([args_view], discharged for every value by the five theorems below), every format string
+    built from the documented specifiers and modifiers renders as documented, or fails exactly
+    where the documentation says *)
+Theorem C12_format_spec_family : forall a sv fmt, args_view a sv -> documented_family fmt ->
   claim (doc_format sv fmt) (delayed_display a (sf_new fmt)).
 Proof. exact format_spec_family. Qed.
-Print Assumptions C12_format_spec_family_partial.
+Print Assumptions C12_format_spec_family.
+
+(** the calendar view of every valid NaiveDate (from C01/C08's theorems over [repr]) *)
+Theorem C12_date_view_of_repr : forall y o d, repr y o d -> date_view d (dn_of_yo y o).
+Proof. exact date_view_of_repr. Qed.
+Print Assumptions C12_date_view_of_repr.
+
+(** the arguments `format_with_items` hands to the formatter denote the value, for every value of
+    each kind; for DateTime<FixedOffset> whenever the local calendar day is a valid NaiveDate *)
+Theorem C12_args_view_date : forall y o sv, sval_of 0 (VTup [VInt y; VInt o]) = Some sv ->
+  exists d, DateTime.dec_date (VTup [VInt y; VInt o]) = Some d /\ args_view (fa_of_date d) sv.
+Proof. exact args_view_date. Qed.
+Print Assumptions C12_args_view_date.
+Theorem C12_args_view_time : forall s f sv, sval_of 1 (VTup [VInt s; VInt f]) = Some sv ->
+  exists t, Time.dec_time (VTup [VInt s; VInt f]) = Some t /\ args_view (fa_of_time t) sv.
+Proof. exact args_view_time. Qed.
+Print Assumptions C12_args_view_time.
+Theorem C12_args_view_ndt : forall y o s f sv, sval_of 2 (VTup [VInt y; VInt o; VInt s; VInt f]) = Some sv ->
+  exists n, DateTime.dec_ndt (VTup [VInt y; VInt o; VInt s; VInt f]) = Some n /\ args_view (fa_of_ndt n) sv.
+Proof. exact args_view_ndt. Qed.
+Print Assumptions C12_args_view_ndt.
+Theorem C12_args_view_dtz : forall y o s f off sv,
+  sval_of 3 (VTup [VInt y; VInt o; VInt s; VInt f; VInt off]) = Some sv ->
+  (forall n, sv_dn sv = Some n -> dn_in_range n = true) ->
+  exists z a, DateTime.dec_dtz (VTup [VInt y; VInt o; VInt s; VInt f; VInt off]) = Some z /\
+              fa_of_dtz z = Val a /\ args_view a sv.
+Proof. exact args_view_dtz. Qed.
+Print Assumptions C12_args_view_dtz.
+Theorem C12_args_view_utc : forall y o s f sv, sval_of 4 (VTup [VInt y; VInt o; VInt s; VInt f]) = Some sv ->
+  exists n a, DateTime.dec_ndt (VTup [VInt y; VInt o; VInt s; VInt f]) = Some n /\
+              fa_of_utc n = Val a /\ args_view a sv.
+Proof. exact args_view_utc. Qed.
+Print Assumptions C12_args_view_utc.
+
+(** C12 holds of the model, over cases: for every kind of value and every format string of the
+    documented family the judge (the executable statement of the property) accepts the model's
+    output of `sf.fmt` — the documented text, or err:fmt exactly when a field is missing or a
+    modifier is put on a non-numeric specifier.
+    Partial in three respects: (1) a DateTime<FixedOffset> whose local calendar day falls outside
+    the NaiveDate range (the BEFORE_MIN / AFTER_MAX sentinels of overflowing_naive_local) is
+    excluded by the second hypothesis; (2) format strings with an undocumented specifier are
+    outside [documented_family] (Error proved for an isolated ASCII specifier only); (3) the
+    `sf.items` / `sf.fmtl` ops are covered by the item-level theorems above, not at judge level. *)
+Theorem C12_holds_fmt_partial : forall kind v fmt,
+  documented_family fmt ->
+  (forall sv n, sval_of kind v = Some sv -> sv_dn sv = Some n -> dn_in_range n = true) ->
+  accepted (judge (bytes_of_string "sf.fmt") [VInt kind; v; VStr fmt]
+                  (run (bytes_of_string "sf.fmt") [VInt kind; v; VStr fmt])).
+Proof. exact C12_holds_fmt. Qed.
+Print Assumptions C12_holds_fmt_partial.
 
 (** the hypotheses are inhabited: 2001-07-08T00:34:54 (leap second) +09:30, and a format string
     with composites, modifiers, multi-byte text, %+ and %% *)
